@@ -234,7 +234,7 @@ pub enum SeqOp {
     Enc(u64),
     Dec(u64),
 }
-pub const SEQ_ALPHABET_LEN: usize = 36;
+pub const SEQ_ALPHABET_LEN: usize = 38;
 /// value alphabet for call sequences: +-x pairs, neighbours, whole numbers around 2^31, and reals
 pub fn seq_alphabet() -> Vec<SeqOp> {
     let mut v = vec![];
@@ -243,7 +243,7 @@ pub fn seq_alphabet() -> Vec<SeqOp> {
         v.push(SeqOp::Enc((-x).to_bits()));
         v.push(SeqOp::Enc(x.to_bits() + 1));
     }
-    for r in [0x4110_0000_0000_0000u64, 0xC110_0000_0000_0000, 0x0010_0000_0000_0000, 0x7FFF_FFFF_FFFF_FFFF, 0x41FF_FFFF_FFFF_FFF8, 0x3E41_8937_4BC6_A7F0] {
+    for r in [0x4110_0000_0000_0000u64, 0xC110_0000_0000_0000, 0x0010_0000_0000_0000, 0x7FFF_FFFF_FFFF_FFFF, 0x41FF_FFFF_FFFF_FFF8, 0x3E41_8937_4BC6_A7F0, 0x4080_0000_0000_0000, 0xC020_0000_0000_0000] {
         v.push(SeqOp::Dec(r));
     }
     assert_eq!(v.len(), SEQ_ALPHABET_LEN);
@@ -417,7 +417,7 @@ impl Driver for C15 {
     fn describe(&self, tier: Tier) -> Describe {
         Describe {
             rule: format!(
-                "doubles: every binary exponent -256..=251 (16^-64 <= |x| < 16^63) x both signs x {} fraction patterns (0..3, all-ones-0..3 i.e. everything within 3 ulp of every power of two and sixteen, all 1-bit{} patterns, alternating, pi, e) plus +-0; 8-byte reals: exponent byte 0..127 x sign x {} normalised mantissas (first nibble 1..15 with zeros / ones / 1-bit / 2-bit tails, and every low-bit pattern under seven 53-bit prefixes = all rounding cases: below half, tie to even both ways, above half); every edge value also through UNITS/MAG/ANGLE records with write+from_bytes. A state is one value; non-trivial = mantissa/fraction not zero. Also every call sequence of length 2 and 3 over a 36-value alphabet of encode / decode calls (+-x pairs, neighbours, whole numbers around 2^31, extreme reals): the last call must return the exact result whatever was called before (the codec is a pure function). Oracle: exact integer arithmetic (unique normalised encoding; round-to-nearest-even decode).",
+                "doubles: every binary exponent -256..=251 (16^-64 <= |x| < 16^63) x both signs x {} fraction patterns (0..3, all-ones-0..3 i.e. everything within 3 ulp of every power of two and sixteen, all 1-bit{} patterns, alternating, pi, e) plus +-0; 8-byte reals: exponent byte 0..127 x sign x {} normalised mantissas (first nibble 1..15 with zeros / ones / 1-bit / 2-bit tails, and every low-bit pattern under seven 53-bit prefixes = all rounding cases: below half, tie to even both ways, above half); every edge value also through UNITS/MAG/ANGLE records with write+from_bytes. A state is one value; non-trivial = mantissa/fraction not zero. Also every call sequence of length 2 and 3 over a 38-value alphabet of encode / decode calls (+-x pairs, neighbours, whole numbers around 2^31, extreme reals, reals with exponent byte 0x40): the last call must return the exact result whatever was called before (the codec is a pure function); every single call and every pair also as the first calls of a freshly started thread. Oracle: exact integer arithmetic (unique normalised encoding; round-to-nearest-even decode).",
                 frac_patterns(tier.is_thorough()).len(),
                 if tier.is_thorough() { ", all 2-, 3-, 4- and 5-bit patterns and the complement of each" } else { ", edge 2-bit" },
                 real_mantissas(tier.is_thorough()).len()
@@ -488,6 +488,44 @@ impl Driver for C15 {
             };
             let mut n = 0u64;
             let a = &alpha[first];
+            // the same on a thread that has never called the codec before: the single call, and every pair
+            for b in std::iter::once(None).chain(alpha.iter().map(Some)) {
+                n += 1;
+                cx.stats.executions += 1;
+                cx.stats.transitions += if b.is_some() { 2 } else { 1 };
+                cx.stats.evaluations += 1;
+                let (a2, b2) = (a.clone(), b.cloned());
+                let last = b.unwrap_or(a);
+                let key = format!("qt:{first}:{}", n);
+                let got = std::thread::spawn(move || {
+                    guard(|| {
+                        let call = |op: &SeqOp| -> u64 {
+                            match op {
+                                SeqOp::Enc(b) => GdsFloat64::encode(f64::from_bits(*b)),
+                                SeqOp::Dec(r) => GdsFloat64::decode(*r).to_bits(),
+                            }
+                        };
+                        let r = call(&a2);
+                        match &b2 {
+                            Some(b) => call(b),
+                            None => r,
+                        }
+                    })
+                })
+                .join();
+                match got {
+                    Err(_) => cx.fail(&key, "sequence-panic", None, || "a fresh thread calling the codec died".to_string(), || Value::Null),
+                    Ok(Err(p)) => cx.fail(&key, "sequence-panic", None, || p.short(), || Value::Null),
+                    Ok(Ok(g)) => {
+                        if g != want(last) {
+                            cx.outcome("sequence-mismatch");
+                            cx.fail(&key, "call-sequence-fresh-thread", None, || format!("on a freshly started thread, {}the call {:?} returned {g:#018x}, the exact result is {:#018x}", if b.is_some() { format!("after {:?} ", a) } else { String::new() }, last, want(last)), || Value::Null);
+                        } else {
+                            cx.outcome("sequence-exact");
+                        }
+                    }
+                }
+            }
             for b in alpha.iter() {
                 for c3 in std::iter::once(None).chain(alpha.iter().map(Some)) {
                     n += 1;
